@@ -56,7 +56,7 @@ Lemma in_step_in : forall x l, in_step x (EIn l) = Some x.
 Proof. reflexivity. Qed.
 
 Lemma RIn_in_ign : forall W ex owed xa, in_ign ustep in_step (fun _ => True) (RIn W ex owed xa).
-Proof. intros W ex owed xa h x s l _ _. split; [reflexivity|]. intros [] _. destruct h; reflexivity. Qed.
+Proof. intros W ex owed xa h x s l h' x' _ HR E1 E2. inversion E1. rewrite in_step_in in E2. inversion E2. subst. exact HR. Qed.
 
 (* state changes that keep every connection and the registry *)
 Lemma RIn_frame : forall W ex owed xa u x s s',
